@@ -64,11 +64,11 @@ def build(case):
         elif cut == "data_rst":
             faults.append({"at": at, "do": "data_cut", "session": "s0", "how": "rst"})
         elif cut == "server_close":
-            faults.append({"at": at, "do": "server_close"})
+            faults.append({"at": at, "do": "server_close", "newcomers": case.get("newcomers")})
     delay = case.get("fs_delay", [0.0001, 0.002])
     return {
         "seed": case["seed"],
-        "server": {"block_size": B, "idle_timeout": None, "socket_timeout": None, "wait_future_timeout": None, "users": corpus.USERS, "data_ports": case.get("data_ports")},
+        "server": {"block_size": B, "idle_timeout": None, "socket_timeout": None, "wait_future_timeout": None, "users": corpus.USERS, "data_ports": case.get("data_ports"), "user_manager": case.get("manager"), "user_manager_delays": case.get("manager_delays")},
         "net": net,
         "fs": {"delay": delay, "tree": tree, "short_reads": bool(case["seed"] & 1)},
         "sessions": sessions,
@@ -106,7 +106,7 @@ def run_case(case):
 
         gc.collect()
         net = world.net
-        harness = getattr(obs, "harness_tasks", set())
+        harness = set(getattr(obs, "harness_tasks", set())) | set(getattr(obs, "extra_harness_tasks", set()))
         cur = asyncio.current_task(world.loop)
         if phase == "settled":
             for label, s in obs.sessions.items():
@@ -247,7 +247,7 @@ def main(argv=None):
         print("not reproduced")
         return 0
     quick = a.tier == "quick"
-    ev = common.Evidence(PROP, a.tier, a.seed, "fault_enumeration", "every corpus script x every network event index k x cut kind, re-executed deterministically with the fault placed at event k; a run is non-trivial when the fault actually fired; distinct = distinct run digests (hash of the full network event log, backend call log and transcripts) Includes a pipelined script, a download whose peer never reads the data connection, and sessions that send an undecodable / over-long command line with a passive listener open.")
+    ev = common.Evidence(PROP, a.tier, a.seed, "fault_enumeration", "every corpus script x every network event index k x cut kind, re-executed deterministically with the fault placed at event k; a run is non-trivial when the fault actually fired; distinct = distinct run digests (hash of the full network event log, backend call log and transcripts) Includes a pipelined script, a download whose peer never reads the data connection, sessions that send an undecodable / over-long command line with a passive listener open, and peers that connect while Server.close() is under way (slow user manager).")
     rep = common.Reporter(PROP, ev)
     names = sorted({**corpus.scripts(), **corpus.extra_scripts()})
     seeds = [a.seed * 1000 + i for i in range(1 if quick else 6)]
@@ -305,7 +305,16 @@ def main(argv=None):
             for sd in seeds[:2]:
                 for k in range(1, 140):
                     stepsweep.append({"script": sname, "seed": sd * 100 + 77, "cut": "server_close", "k": k, "unit": "step", "net": {"latency": [0.0, 0.0], "send_delay": 0.0, "accept_delay": [0.0, 0.0]}})
-        plan = stepsweep + focus + plan + extra
+        # somebody connects while Server.close() is taking the sessions down (a user manager whose
+        # notify_logout suspends makes that take a while): close() at every event of three scripts,
+        # newcomers 0 .. 0.4 s after it started
+        late = []
+        for sname in ("idle", "stor_retr", "pasv_reuse"):
+            for sd in seeds[:1]:
+                N = npilot_events.get((sname, sd * 100 + names.index(sname), False), 60)
+                for k in range(1, N + 1, 2 if quick else 1):
+                    late.append({"script": sname, "seed": sd * 100 + names.index(sname), "cut": "server_close", "k": k, "newcomers": [0.0, 0.0011, 0.1, 0.4], "manager": "slow", "manager_delays": [0.3, 0.5]})
+        plan = stepsweep + focus + late + plan + extra
         if quick:
             # quick tier: a seeded sample of the sweep that fits the budget; thorough does it all
             plan = plan[: 9000]
